@@ -386,10 +386,11 @@ def splice(s, con, rw, fnmap_sink, focus=None):
             edits.append((lp['kw_start'] + m.end(), 0, spec['iter'] + ': '))
         rw.count('T4-loop', 1)
 
-    for fname, text in con.bodypre.items():
+    for fkey, text in con.bodypre.items():
+        fname, _, nth = fkey.partition('#')          # `@@ bodypre FN#k`: the k-th fn of that name
         if fname not in names or fname in con.drop:
             continue
-        a, body_open, body_close = rsrc.find_fn(s, fname)
+        a, body_open, body_close = rsrc.find_fn(s, fname, int(nth or 0))
         edits.append((body_open + 1, 0, '\n' + '\n'.join(text).rstrip() + '\n'))
         rw.count('T4-bodypre', 1)
 
@@ -494,6 +495,8 @@ def unit_def(unit):
         files.append((d + '/parser.rs', None))
     elif part == 'ast':
         files = [(d + '/ast.rs', None)]
+        if stack == 'number':
+            files.insert(0, (d + '/number.rs', None))
     elif part == 'glue':
         files = [(d + '/mod.rs', ['fn eval_' + stack])]
     elif part == 'tok':
@@ -634,6 +637,19 @@ def unit_rewrites(ud, rel, s, rw):
         # T16: text -> number conversions
         s = rw.regex('T16', s, r'\.parse::<(i64|f64)>\(\)\s*\.ok\(\)', r'.verif_parse_\1()')
         s = t16_from_str(s, rw)
+    if rel.endswith('/number.rs') and part == 'ast':
+        # T22: the casts of Number::from(f64) (Verus gives int <-> float casts no meaning; helper bodies = the casts)
+        s = rw.regex('T22', s, r'\b(\w+) as i64\b', r'verif_f64_to_i64(\1)')
+        s = t22_cast_to_f64(s, rw)
+        s = t8_f64_consts(s, rw)
+    if rel.endswith('/ast.rs') and part == 'ast' and stack == 'number':
+        # T12: the NaN test and the sort idiom on Vec<Number> (multi-line closures) -> helpers whose bodies are the originals
+        s = rw.regex('T12', s, r'(\w+)\s*\.iter\(\)\s*\.any\(\|(\w+)\| matches!\(\2, Number::Float\((\w+)\) if \3\.is_nan\(\)\)\)', r'verif_any_nan(&\1)')
+        s = t12_sort_closure(s, rw)
+        # T14: the one integer division (exact quotient of two Integers): Verus specifies `/` on i64 for positive divisors only
+        s = rw.literal('T14', s, 'Number::Integer(value_a / value_b)', 'Number::Integer(verif_idiv(value_a, value_b))', expect=1)
+    if rel.endswith('/ast.rs') and part == 'ast':
+        s = t24_step_counter(s, rw)
     if rel.endswith('/ast.rs') and part in ('core', 'ast'):
         # T12: the sort idiom -> helper with an assumed contract (body = the original expression)
         s = rw.regex('T12', s, r'(\w+)\.sort_by\(\|a, b\| a\.partial_cmp\(b\)\.unwrap\(\)\);', r'verif_sort(&mut \1);')
@@ -749,6 +765,59 @@ def t8_f64_consts(s, rw):
     for name, fn in F64_CONSTS:
         s = rw.regex('T8', s, r'(?<![\w:])' + re.escape(name) + r'\b', fn)
     return s
+
+
+def t24_step_counter(s, rw):
+    """T24 (C02, ghost only).  `eval` gets a ghost step counter: the signature becomes `eval(expr: Node, steps: &mut Ghost<nat>)`
+    and every call `eval(E)` becomes `eval(E, steps)`.  `Ghost<nat>` is erased by compilation; the executable text is unchanged.
+    The contract then bounds the counter by cost(expr) (gen/<stack>-cost.vinc): the number of eval calls is at most the number
+    of nodes, so re-evaluating a subtree is a failed obligation."""
+    mask = rsrc.code_mask(s)
+    m = re.search(r'pub fn eval\(expr: Node\)', s)
+    if not m:
+        raise LostAnchor("T24: signature `pub fn eval(expr: Node)` not found")
+    out = []
+    i = 0
+    n = 0
+    for c in re.finditer(r'(?<![\w.])eval\(', s):
+        if not mask[c.start()] or c.start() < i:
+            continue
+        if s[:c.start()].rstrip().endswith('fn'):
+            continue
+        close = rsrc.match_close(s, c.end() - 1)
+        out.append(s[i:close])
+        out.append(', steps')
+        i = close
+        n += 1
+    out.append(s[i:])
+    s = ''.join(out)
+    s = s.replace('pub fn eval(expr: Node)', 'pub fn eval(expr: Node, steps: &mut Ghost<nat>)', 1)
+    rw.count('T24', n + 1)
+    return s
+
+
+def t12_sort_closure(s, rw):
+    """T12 (eval_number): `v.sort_by(|a, b| { <convert both to f64>; a.partial_cmp(&b).unwrap() });` -> `verif_sort(&mut v);`.
+    Recognised by its head `IDENT.sort_by(|a, b| {` and its last expression `a.partial_cmp(&b).unwrap()`."""
+    out = []
+    i = 0
+    n = 0
+    for m in re.finditer(r'(\w+)\.sort_by\(\|a, b\| \{', s):
+        if m.start() < i:
+            continue
+        bo = m.end() - 1
+        bc = rsrc.match_close(s, bo)
+        body = s[bo + 1:bc]
+        tail = s[bc + 1:bc + 3]
+        if not body.rstrip().endswith('a.partial_cmp(&b).unwrap()') or tail != ');':
+            continue
+        out.append(s[i:m.start()])
+        out.append('verif_sort(&mut %s);' % m.group(1))
+        i = bc + 3
+        n += 1
+    out.append(s[i:])
+    rw.count('T12', n)
+    return ''.join(out)
 
 
 def t22_cast_to_f64(s, rw):
